@@ -68,6 +68,9 @@ def worker(job):
     if op in ("times_group_element", "average_pool"):
         for t in types:
             blk = blocks[t]
+            if t not in res or tuple(res[t].shape[:len(lead)]) != tuple(lead):
+                problems.append(("per-image", "%s: block %s comes back with leading axes %s, the input has %s (entries are regrouped across batch / channel axes)" % (op, tname(t), list(res[t].shape[:len(lead)]) if t in res else "missing", list(lead)), site_of(res[t]) if t in res else None))
+                return dict(cfg=cfg, problems=problems)
             for li in itertools.product(*[range(s) for s in lead]):
                 exp = single(t, blk[li] if li else blk)
                 got = res[t][li] if li else res[t]
